@@ -671,6 +671,350 @@ def policy_oracle(ctx, name, spec, species, stored, wls, null, fb, o, m):
         fail(ctx, 'C07:%s:null-with-data-present' % name, '%s returned a Null rate although data are stored' % name, m)
 
 
+# ------------------------------------------------------------------------------------------------ sequence stream (K + S)
+# One provider instance answers several requests in a row.  The sentence makes every answer a function of the
+# repository content and the request alone, so the answer in a sequence must equal the answer of a fresh provider
+# (S, differential against the implementation itself) and the stateless model's (K).  The repository holds distinct
+# tables / wavelengths for every combination of species variant, charge, transition, metastable, so a per-instance
+# memo keyed too coarsely (element and isotope sharing a key, charge / transition / donor / metastable ignored)
+# returns somebody else's datum.
+SEQ_TRANSITIONS = [(3, 2), (4, 2)]
+SEQ_CHARGES = [1, 2]
+USES_TRANSITION = ('beam_cx_pec', 'beam_emission_pec', 'impact_excitation_pec', 'recombination_pec', 'thermal_cx_pec')
+USES_METASTABLE = ('beam_population_rate',)
+
+
+def seq_dims(name):
+    trs = SEQ_TRANSITIONS if name in USES_TRANSITION else [SEQ_TRANSITIONS[0]]
+    mss = [1, 2] if name in USES_METASTABLE else [1]
+    return trs, mss
+
+
+def seq_pools(spec):
+    from cherab.core.atomic import elements as E
+    if len(spec['species']) == 2:
+        return ([[E.hydrogen, E.deuterium, E.protium, E.helium], [E.carbon, E.carbon13, E.helium]],
+                [[E.hydrogen, E.deuterium, E.helium], [E.carbon, E.carbon13]])
+    return ([[E.carbon, E.carbon13, E.hydrogen, E.deuterium, E.protium]], [[E.carbon, E.carbon13, E.hydrogen, E.deuterium]])
+
+
+def build_seq_repo(repo, name, spec):
+    """deterministic content: returns root, entries {(syms, charge, tr, ms): tag}, wavelengths {(sym, charge, tr): nm}"""
+    from cherab.openadas import repository as R
+    from cherab.core.atomic import elements as E
+    root = repo.fresh()
+    trs, mss = seq_dims(name)
+    _, store = seq_pools(spec)
+    entries, wls = {}, {}
+    tag = 2.0
+    for key in itertools.product(*store):
+        for charge, tr, ms in itertools.product(SEQ_CHARGES, trs, mss):
+            if charge > key[-1].atomic_number:
+                continue
+            if charge == 2 and tr == (4, 2):
+                continue                                  # a hole: this datum is missing
+            ch = dict(charge=charge, donor_charge=0, metastable=ms)
+            spec['write'](root, key, ch, tr, tag_table(spec['shape'], tag))
+            entries[(tuple(key_syms(key)), charge, tr if name in USES_TRANSITION else None, ms if name in USES_METASTABLE else None)] = tag
+            tag += 1.0
+    if spec['wl'] or name == 'wavelength':
+        w = 401.0
+        for sp in (E.carbon, E.carbon13, E.hydrogen, E.deuterium, E.helium):
+            for charge, tr in itertools.product((0, 1, 2), SEQ_TRANSITIONS):
+                if charge > sp.atomic_number:
+                    continue
+                if _is_iso(sp) and tr == (4, 2):
+                    continue                              # isotope wavelength missing: the fall-back decides
+                wls[(sp.symbol, charge, tr)] = w
+                R.update_wavelengths({sp: {charge: {tr: w}}}, repository_path=root)
+                w += 7.0
+    return root, entries, wls
+
+
+def seq_requests(name, spec):
+    trs, mss = seq_dims(name)
+    req, _ = seq_pools(spec)
+    out = []
+    for species in itertools.product(*req):
+        for charge, tr, ms in itertools.product(SEQ_CHARGES, trs, mss):
+            out.append(dict(species=list(species), charge=charge, tr=tr, ms=ms))
+    return out
+
+
+def seq_coords(name, spec, rq):
+    """(rate coordinates, wavelength coordinates) of a request"""
+    rc = (rq['charge'], rq['tr'] if name in USES_TRANSITION else None, rq['ms'] if name in USES_METASTABLE else None)
+    wc = None
+    if spec['wl']:
+        wc = (0 if spec['wl'][1] is None else rq['charge'] + spec['wl'][1], rq['tr'])
+    return rc, wc
+
+
+def seq_observe(name, spec, a, rq, entries, wls):
+    """canonical observation of one request on provider `a` (vocabulary of the driver's `pol` output; a datum that
+    belongs to other coordinates than the request's is marked `@stale`)"""
+    ch = dict(charge=rq['charge'], donor_charge=0, metastable=rq['ms'])
+    st, val, in_list = call_accessor(spec, a, rq['species'], ch, rq['tr'])
+    if st == 'ctor':
+        return 'raises:ValueError'
+    if st != 'ok':
+        return 'raises:' + st
+    rc, wc = seq_coords(name, spec, rq)
+    n = len(ARG_NAMES[spec['shape']])
+    if all(type(r).__name__.startswith('Null') for r in val):
+        zero = all(impl_eval(r, p) == ('ok', 0.0) for r in val for p in ([1e19] * n, [-1.0] * n, [3.3] * n))
+        return ('null:%d' if zero else 'null-not-zero:%d') % in_list
+    r = val[0]
+    tab0 = tag_table(spec['shape'], 1.0)
+    p = first_knot(spec['shape'], tab0)
+    wl = getattr(r, 'wavelength', None)
+    stv = impl_eval(r, p)
+    key = '?'
+    if stv[0] == 'ok':
+        t1 = tab0['metastables'][1] if spec['shape'] == 'beamCX' else tab0
+        unit = expected_at(spec['shape'], t1, [0] * len(p), wl)
+        for (syms, c, t, m), tag in entries.items():
+            if close(stv[1], tag * unit, 1e-9):
+                key = ','.join(syms) + ('' if (c, t, m) == rc else '@stale')
+    wsym = '-'
+    if spec['wl']:
+        wsym = '?'
+        for (sym, c, t), w in wls.items():
+            if w == wl:
+                wsym = sym + ('' if (c, t) == wc else '@stale')
+    return 'rate:%s:%s:%d' % (key, wsym, in_list)
+
+
+def seq_abstract(name, spec, rq, entries, wls):
+    """the abstract call of the stateless model for this request: stored symbol vectors / wavelength symbols at its coordinates"""
+    rc, wc = seq_coords(name, spec, rq)
+    stored = sorted(list(syms) for (syms, c, t, m) in entries if (c, t, m) == rc)
+    wsyms = sorted(sym for (sym, c, t) in wls if wc is not None and (c, t) == wc)
+    return stored, wsyms
+
+
+def rq_json(rq):
+    return dict(species=[s.name for s in rq['species']], charge=rq['charge'], tr=list(rq['tr']), ms=rq['ms'])
+
+
+def rq_from_json(d):
+    from cherab.core.atomic import elements as E
+    return dict(species=[getattr(E, n) for n in d['species']], charge=d['charge'], tr=tuple(d['tr']), ms=d['ms'])
+
+
+def differs_in_one(a, b):
+    d = sum(1 for x, y in zip(a['species'], b['species']) if x is not y)
+    d += (a['charge'] != b['charge']) + (a['tr'] != b['tr']) + (a['ms'] != b['ms'])
+    return d == 1
+
+
+def seq_judge(ctx, name, spec, root, flags, order, k, o, fresh_o, reqs, entries, wls, provider):
+    """S for the k-th request of `order`: same answer as a fresh provider; then the sentence itself"""
+    rq = reqs[order[k]]
+    null, fb, ex = flags
+    if o != fresh_o:
+        # shrink to two requests: which single earlier request is enough?
+        culprit = None
+        for j in order[:k]:
+            a = provider()
+            seq_observe(name, spec, a, reqs[j], entries, wls)
+            if seq_observe(name, spec, a, rq, entries, wls) == o:
+                culprit = j
+                break
+        seqr = [reqs[culprit]] if culprit is not None else [reqs[j] for j in order[:k]]
+        fo, so = fresh_o.split(':'), o.split(':')
+        what = 'outcome'
+        if fo[0] == so[0] == 'rate':
+            what = 'rates' if fo[1] != so[1] else ('wavelength' if fo[2] != so[2] else 'result')
+        m = dict(kind='sequence', accessor=name, null=null, fallback=fb, extrapolate=ex,
+                 requests=[rq_json(x) for x in seqr] + [rq_json(rq)], in_sequence=o, fresh_provider=fresh_o)
+        fail(ctx, 'C07:sequence:%s:%s-depends-on-earlier-request' % (name, what),
+             '%s%s on a provider that had answered %s before gives %s, a fresh provider gives %s: the answer must depend on the repository '
+             'content and the request only (%s)' % (name, rq_json(rq), [rq_json(x) for x in seqr][:3], o, fresh_o,
+                                                    'hc/lambda of another species/transition' if what == 'wavelength' else 'stale ' + what), m)
+        return
+    stored, wsyms = seq_abstract(name, spec, rq, entries, wls)
+    rc, wc = seq_coords(name, spec, rq)
+    wd = {sym: wls[(sym, wc[0], wc[1])] for sym in wsyms} if wc else {}
+    m = dict(kind='sequence', accessor=name, null=null, fallback=fb, extrapolate=ex, requests=[rq_json(rq)])
+    policy_oracle(ctx, name, spec, rq['species'], stored, wd, null, fb, o.replace('@stale', ''), m)
+    if '@stale' in o or ':?' in o:
+        fail(ctx, 'C07:sequence:%s:datum-of-other-coordinates' % name, '%s%s returned %s' % (name, rq_json(rq), o), m)
+
+
+def sequence_stream(ctx, cat, only=None):
+    from cherab.openadas import OpenADAS
+    rng = ctx.rng
+    repo = Repo()
+    lines, obs, meta = [], [], []
+    full = ctx.tier == 'thorough'
+    for name, spec in cat.items():
+        if only and name != only:
+            continue
+        root, entries, wls = build_seq_repo(repo, name, spec)
+        reqs = seq_requests(name, spec)
+        flag_sets = list(itertools.product((False, True), (False, True)))
+        if not full:
+            # both fall-back settings always; the null flag alternates
+            k = rng.randrange(2)
+            flag_sets = [(bool(k), False), (not k, True)]
+        for null, fb in flag_sets:
+            ex = rng.random() < 0.5
+            flags = (null, fb, ex)
+
+            def provider():
+                return OpenADAS(data_path=root, permit_extrapolation=ex, missing_rates_return_null=null, wavelength_element_fallback=fb)
+
+            fresh = [seq_observe(name, spec, provider(), rq, entries, wls) for rq in reqs]
+            pol = []
+            for rq in reqs:
+                stored, wsyms = seq_abstract(name, spec, rq, entries, wls)
+                pol.append(pol_line(name, null, fb, list(zip(spec['species'], rq['species'])), stored, wsyms))
+            # (a) long sequences: random permutations and their reverses, the permutation repeated once (warm memo)
+            orders = []
+            for _ in range(ctx.n(1, 4)):
+                perm = list(range(len(reqs)))
+                rng.shuffle(perm)
+                orders += [perm + perm[: len(perm) // 2], perm[::-1]]
+            # (b) every ordered pair of requests that differ in exactly one coordinate (species variant, charge,
+            #     transition, metastable), each pair on its own provider
+            pairs = [(i, j) for i in range(len(reqs)) for j in range(len(reqs)) if i != j and differs_in_one(reqs[i], reqs[j])]
+            if not full and len(pairs) > 160:
+                # always keep the element <-> isotope pairs; sample the rest
+                keep = [p_ for p_ in pairs if reqs[p_[0]]['charge'] == reqs[p_[1]]['charge'] and reqs[p_[0]]['tr'] == reqs[p_[1]]['tr']
+                        and reqs[p_[0]]['ms'] == reqs[p_[1]]['ms']
+                        and all(_elem(x) is _elem(y) for x, y in zip(reqs[p_[0]]['species'], reqs[p_[1]]['species']))]
+                rest = [p_ for p_ in pairs if p_ not in set(keep)]
+                pairs = keep + rng.sample(rest, min(len(rest), 160 - min(160, len(keep))))
+            orders += [list(p_) for p_ in pairs]
+            for order in orders:
+                a = provider()
+                for k, idx in enumerate(order):
+                    o = seq_observe(name, spec, a, reqs[idx], entries, wls)
+                    lines.append(pol[idx])
+                    obs.append(o)
+                    meta.append(dict(kind='sequence', accessor=name, null=null, fallback=fb, extrapolate=ex,
+                                     requests=[rq_json(reqs[j]) for j in order[:k + 1]][-3:]))
+                    ctx.count('sequence:' + o.split(':')[0])
+                    ctx.case(key=('seq', name, flags, tuple(order[max(0, k - 1):k + 1]), len(order) > 2))
+                    seq_judge(ctx, name, spec, root, flags, order, k, o, fresh[idx], reqs, entries, wls, provider)
+        repo.drop(root)
+    # ---- OpenADAS.wavelength itself
+    if not only or only == 'wavelength':
+        from cherab.core.atomic import elements as E
+        wspec = dict(wl=(0, 0), species=['ion'], shape='grid2')
+        root, entries, wls = build_seq_repo(repo, 'wavelength', dict(wspec, write=lambda *a_: None))
+        reqs = [dict(species=[sp], charge=c, tr=tr, ms=1) for sp in (E.carbon, E.carbon13, E.hydrogen, E.deuterium, E.protium, E.helium)
+                for c in (0, 1) for tr in SEQ_TRANSITIONS]
+        for fb in (False, True):
+            def wobs(a, rq):
+                try:
+                    w = a.wavelength(rq['species'][0], rq['charge'], rq['tr'])
+                except Exception as e:  # noqa
+                    return 'raises:' + type(e).__name__
+                for (sym, c, t), v in wls.items():
+                    if v == w:
+                        return 'ok:' + sym + ('' if (c, t) == (rq['charge'], rq['tr']) else '@stale')
+                return 'ok:?'
+
+            def wprov():
+                return OpenADAS(data_path=root, wavelength_element_fallback=fb)
+
+            fresh = [wobs(wprov(), rq) for rq in reqs]
+            orders = []
+            for _ in range(ctx.n(2, 6)):
+                perm = list(range(len(reqs)))
+                rng.shuffle(perm)
+                orders += [perm + perm[: len(perm) // 2], perm[::-1]]
+            orders += [[i, j] for i in range(len(reqs)) for j in range(len(reqs)) if i != j and differs_in_one(reqs[i], reqs[j])]
+            for order in orders:
+                a = wprov()
+                for k, idx in enumerate(order):
+                    rq = reqs[idx]
+                    sp = rq['species'][0]
+                    o = wobs(a, rq)
+                    wsyms = sorted(sym for (sym, c, t) in wls if (c, t) == (rq['charge'], rq['tr']))
+                    lines.append('wl %d %s %s %s %s %d %s' % (fb, 'ion', sp.symbol, _elem(sp).symbol, '1' if _is_iso(sp) else '0', len(wsyms), ' '.join(wsyms)))
+                    obs.append(o)
+                    m = dict(kind='sequence', accessor='wavelength', null=False, fallback=fb, extrapolate=False,
+                             requests=[rq_json(reqs[j]) for j in order[:k + 1]][-3:])
+                    meta.append(m)
+                    ctx.case(key=('seq', 'wavelength', fb, tuple(order[max(0, k - 1):k + 1]), len(order) > 2))
+                    ctx.count('sequence:wavelength')
+                    if o != fresh[idx]:
+                        culprit = None
+                        for j in order[:k]:
+                            a2 = wprov()
+                            wobs(a2, reqs[j])
+                            if wobs(a2, rq) == o:
+                                culprit = j
+                                break
+                        seqr = [reqs[culprit]] if culprit is not None else [reqs[j] for j in order[:k]]
+                        m2 = dict(m, requests=[rq_json(x) for x in seqr] + [rq_json(rq)], in_sequence=o, fresh_provider=fresh[idx])
+                        fail(ctx, 'C07:sequence:wavelength:wavelength-depends-on-earlier-request',
+                             'OpenADAS.wavelength%s on a provider that had answered %s before gives %s, a fresh provider gives %s '
+                             '(distinct wavelengths are stored for the element and its isotope): every photon coefficient converted with it uses hc/lambda '
+                             'of the wrong species' % (rq_json(rq), [rq_json(x) for x in seqr][:3], o, fresh[idx]), m2)
+                    else:
+                        want = ('ok:' + sp.symbol) if sp.symbol in wsyms else (
+                            'ok:' + _elem(sp).symbol if (fb and _is_iso(sp) and _elem(sp).symbol in wsyms) else 'raises:RuntimeError')
+                        if o != want:
+                            fail(ctx, 'C07:wavelength:%s' % ('wrong-species' if o.startswith('ok') else o.split(':')[1]),
+                                 'OpenADAS.wavelength%s with stored %s, fallback=%s gave %s, property wants %s' % (rq_json(rq), wsyms, fb, o, want), m)
+        repo.drop(root)
+    repo.close()
+    outs = drive(ctx, lines) if lines else []
+    for line, o, m, d in zip(lines, obs, meta, outs):
+        ctx.traces += 1
+        if o != d:
+            ctx.disagreements += 1
+            ctx.count('disagreement:sequence')
+            _broke(ctx, 'sequence stream ' + m['accessor'], dict(input=m, model=d, implementation=o,
+                                                                  note='the model is stateless: the answer is a function of repository content and request'))
+    return len(lines)
+
+
+def run_sequence_record(ctx, cat, d):
+    """replay of a `sequence` record: the recorded requests on one provider, the last one judged"""
+    from cherab.openadas import OpenADAS
+    repo = Repo()
+    name = d['accessor']
+    reqs = [rq_from_json(x) for x in d['requests']]
+    null, fb, ex = d['null'], d['fallback'], d['extrapolate']
+    if name == 'wavelength':
+        root, entries, wls = build_seq_repo(repo, 'wavelength', dict(wl=(0, 0), species=['ion'], shape='grid2', write=lambda *a_: None))
+
+        def once(a, rq):
+            try:
+                return 'ok:%r' % a.wavelength(rq['species'][0], rq['charge'], rq['tr'])
+            except Exception as e:  # noqa
+                return 'raises:' + type(e).__name__
+        a = OpenADAS(data_path=root, wavelength_element_fallback=fb)
+        seq = [once(a, rq) for rq in reqs]
+        fresh = once(OpenADAS(data_path=root, wavelength_element_fallback=fb), reqs[-1])
+    else:
+        spec = cat[name]
+        root, entries, wls = build_seq_repo(repo, name, spec)
+
+        def prov():
+            return OpenADAS(data_path=root, permit_extrapolation=ex, missing_rates_return_null=null, wavelength_element_fallback=fb)
+        a = prov()
+        seq = [seq_observe(name, spec, a, rq, entries, wls) for rq in reqs]
+        fresh = seq_observe(name, spec, prov(), reqs[-1], entries, wls)
+    repo.close()
+    print('in sequence: %s\nfresh provider for the last request: %s' % (seq, fresh))
+    if seq[-1] != fresh:
+        what = 'wavelength'
+        if name != 'wavelength':
+            fo, so = fresh.split(':'), seq[-1].split(':')
+            what = 'outcome'
+            if fo[0] == so[0] == 'rate':
+                what = 'rates' if fo[1] != so[1] else ('wavelength' if fo[2] != so[2] else 'result')
+        fail(ctx, 'C07:sequence:%s:%s-depends-on-earlier-request' % (name, what),
+             '%s: %s in sequence, %s on a fresh provider' % (name, seq[-1], fresh), d)
+    return True
+
+
 # ------------------------------------------------------------------------------------------------ numeric stream (K + S)
 def numeric_case(ctx, cat, repo, name, dims, ex, gap=None, fixed=None):
     """build one repository + accessor call; returns dict with driver line(s) and observations.
@@ -925,26 +1269,6 @@ def plan_numeric(ctx, cat):
     return plan
 
 
-def lean_as_is(ctx):
-    """the witnesses that today's defects are real (`Props/C07AsIs.lean`): counted as obligations while they hold;
-    when a fix lands they stop compiling by design, which is recorded and nothing more"""
-    from harness.vlib import lean
-    ok, out = lean.lake_build(['Cherab.Props.C07AsIs'])
-    holds = []
-    if ok:
-        ok2, ax, raw = lean.audit('Cherab/Audit/C07AsIs.lean')
-        for t in lean.audit_targets('Cherab/Audit/C07AsIs.lean'):
-            full = [k for k in ax if k == t or k.endswith('.' + t)]
-            if full and not (set(ax[full[0]]) - lean.ALLOWED_AXIOMS):
-                ctx.obligations.append(('as_is.' + t, True, ','.join(ax[full[0]]) or 'no axioms'))
-                holds.append(t)
-    ctx.extra['as_is_witnesses'] = dict(builds=ok, holding=holds,
-                                        note='defect witnesses on the generated table; expected to stop compiling when the fixes land')
-    if not ok:
-        ctx.log('as-is defect witnesses (Props/C07AsIs.lean) no longer compile: a fix has landed or the table changed')
-    return ok
-
-
 def deviants_tie(ctx):
     """what the generated table says deviates (T side) against what S found on the running code"""
     out = drive(ctx, ['deviants'])[0]
@@ -952,7 +1276,7 @@ def deviants_tie(ctx):
     grd = [x for x in out.split()[1].split(':', 1)[1].split(',') if x]
     ctx.extra['table_deviants'] = dict(policy=pol, guards=grd)
     acc_fail = sorted({sg.split(':')[1] for sg in SIGNATURES
-                       if sg.split(':')[1] in ACCESSOR_NAMES and 'grid-point' not in sg})
+                       if sg.split(':')[1] in ACCESSOR_NAMES and 'grid-point' not in sg and ':sequence:' not in sg})
     grd_fail = sorted({sg.split(':')[1] for sg in SIGNATURES if ':nonpositive-' in sg})
     ctx.traces += 2
     if acc_fail != sorted(pol):
@@ -989,7 +1313,9 @@ def setup(ctx):
 
 
 def describe(ctx):
-    ctx.rule = ('policy: exhaustive product accessor x species kinds (element / isotope / isotope sharing the element symbol) x stored key subsets '
+    ctx.rule = ('sequence: one provider instance answering random permutations of all requests (species variant x charge x transition x '
+                'metastable) and every ordered pair of requests differing in one coordinate, against a fresh provider and the stateless model, '
+                'distinct by (accessor, flags, last two requests); policy: exhaustive product accessor x species kinds (element / isotope / isotope sharing the element symbol) x stored key subsets '
                 'x stored wavelength subsets x 8 flag settings, distinct by that tuple; numerics: per accessor generated positive tables over the shape '
                 'list (incl. single-point axes), evaluated at every grid point, interior points, non-positive arguments and 1.001x/3x/10x outside '
                 'each axis end; distinct by (accessor, point kind, argument bit patterns, extrapolate); non-trivial = the accessor was really called '
@@ -1000,7 +1326,8 @@ def describe(ctx):
                     'libm log10/pow and NumPy log10: parameters (pow10(log10 y) = y, pow10 > 0, pow10(a+b) = pow10 a * pow10 b, log10 strictly increasing)',
                     'cherab.openadas.repository get_*/update_* (property C06): get_* raises RuntimeError on a missing file or key',
                     'json float round trip']
-    ctx.assumptions += ['tables: strictly increasing positive axes with >= 0.08 decade spacing, 6-significant-digit values, |d log10 rate / d log10 x| bounded '
+    ctx.assumptions += ['provider flags are constructor arguments: sequences run under fixed flags (all four null x fall-back settings in the thorough tier)',
+                        'tables: strictly increasing positive axes with >= 0.08 decade spacing, 6-significant-digit values, |d log10 rate / d log10 x| bounded '
                         '(so that extrapolating one decade stays finite in double precision)',
                         'a single-point axis tabulates no dependence on that variable: no range policy is demanded along it',
                         'raysect refuses to build N-D array interpolators on a single-point axis: the accessor raises ValueError and returns no rate object '
@@ -1028,12 +1355,12 @@ def run(ctx):
     describe(ctx)
     cat, tr = setup(ctx)
     ctx.lean_check(['Cherab.Props.C07', 'Cherab.Props.C07Table'], 'Cherab/Audit/C07.lean')
-    lean_as_is(ctx)
     try:
         constants_check(ctx)
         corpus_stream(ctx, cat)
         n_pol = policy_stream(ctx, cat)
         ctx.count('policy-cases', n_pol)
+        ctx.count('sequence-cases', sequence_stream(ctx, cat))
         numeric_stream(ctx, cat, plan_numeric(ctx, cat))
         deviants_tie(ctx)
     finally:
@@ -1055,6 +1382,8 @@ def run_record(ctx, cat, repo, d, verbose=False):
     elif d.get('kind') == 'wavelength':
         line, o, m = wavelength_case(ctx, repo, getattr(E, d['species']), d['wavelengths'], d['fallback'])
         model = drive(ctx, [line])[0]
+    elif d.get('kind') == 'sequence':
+        return run_sequence_record(ctx, cat, d)
     elif d.get('kind') == 'numeric':
         spec = cat[d['accessor']]
         tab = d['table']
